@@ -352,4 +352,23 @@ theorem rne64_mono (a b : Rat) (hab : a ≤ b) : rne64 a ≤ rne64 b := by
 
 theorem rne64_rounding : Rounding rne64 := ⟨rne64_mono, rne64_odd⟩
 
+/-! ## Comparing rounded quantities -/
+
+/-- Comparing two rounded quantities: the exact comparison, or both round to the same number. -/
+theorem Rounding.le_iff {rnd : Rat → Rat} (h : Rounding rnd) (A B : Rat) :
+    rnd A ≤ rnd B ↔ (A ≤ B ∨ rnd A = rnd B) := by
+  constructor
+  · intro hle
+    by_cases hd : A ≤ B
+    · exact Or.inl hd
+    · right
+      have := h.mono B A (by grind)
+      grind
+  · rintro (hd | he)
+    · exact h.mono _ _ hd
+    · rw [he]; exact Rat.le_refl
+
+theorem minAbs_eq_min (xd yd : Int) : minAbs xd yd = min (xd : Rat).abs (yd : Rat).abs := by
+  unfold minAbs; grind
+
 end ScVerif.C16
